@@ -25,6 +25,7 @@ type PodSpec struct {
 	Node     string
 	SubGroup string
 	Groups   []string // GPU groups for placed sharing pods (default: one fresh group per device)
+	Claims   []string // ResourceClaims (by name, see Builder.Claim) the pod references
 	Mutate   func(p *corev1.Pod)
 }
 
@@ -83,7 +84,7 @@ func (b *Builder) Workload(wl WL) *Builder {
 	for i, ps := range wl.Pods {
 		b.rank++
 		name := fmt.Sprintf("%s-%d", wl.Name, i)
-		o := PodOpt{Name: name, Group: wl.Name, SubGroup: ps.SubGroup, Shape: ps.Shape, Rank: b.rank, Mutate: ps.Mutate}
+		o := PodOpt{Name: name, Group: wl.Name, SubGroup: ps.SubGroup, Shape: ps.Shape, Rank: b.rank, Claims: ps.Claims, Mutate: ps.Mutate}
 		placed := false
 		switch ps.State {
 		case "", StPending:
